@@ -94,6 +94,14 @@ func childC07(args []string) {
 	defer out.finish()
 	ctx := context.Background()
 	switch rest[0] {
+	case "busy-consumer":
+		// the same accepted-login line framed through the ingester callback and
+		// handed over directly, while the login consumer is busy for a while
+		dwell := 3 * time.Second
+		if tier == "thorough" {
+			dwell = 12 * time.Second
+		}
+		slowHandoff(ctx, out, "C07", seed, from, to, dwell, func(i int) bool { return i%4 != 0 })
 	case "callback":
 		a, b := newSshHarness(8), newSshHarness(8)
 		for i := from; i < to; i++ {
@@ -464,8 +472,12 @@ func checkC07(r *vlib.Run) int {
 		name string
 		n    int
 		bin  string
-	}{{"callback", nCb, "mon"}, {"audit-parse", nAu, "mon"}, {"fifo", nFifo, "mon-race"}, {"audit-fifo", nAuFifo, "mon-race"}} {
-		res := runChildren(r, ph.bin, "c07", ph.n, (ph.n+31)/32, 10*time.Minute, ph.name)
+	}{{"callback", nCb, "mon"}, {"audit-parse", nAu, "mon"}, {"fifo", nFifo, "mon-race"}, {"audit-fifo", nAuFifo, "mon-race"}, {"busy-consumer", 64, "mon"}} {
+		per := (ph.n + 31) / 32
+		if ph.name == "busy-consumer" {
+			per = 64
+		}
+		res := runChildren(r, ph.bin, "c07", ph.n, per, 10*time.Minute, ph.name)
 		for k, v := range res.stats {
 			stats[k] += v
 		}
@@ -488,6 +500,10 @@ func checkC07(r *vlib.Run) int {
 	r.Set("audit_fifo_batches", stats["audit_fifo_batches"])
 	r.Set("audit_fifo_records", stats["audit_fifo_records"])
 	r.Set("fifo_records_longer_than_4096", stats["fifo_records_longer_than_4096"]+stats["audit_fifo_records_longer_than_4096"])
+	r.Set("busy_consumer_cases_framed", stats["slow_via_syslog-ingester"])
+	r.Set("busy_consumer_cases_direct", stats["slow_via_direct"])
+	r.Set("busy_consumer_dwell_ms", r.Pick(3000, 12000))
+	r.Require(stats["slow_via_syslog-ingester"] >= 40 && stats["slow_via_direct"] >= 10, "busy-consumer cases did not run")
 	r.Require(len(forms) == len(vlib.SshForms), "not every form compared")
 	r.Require(stats["pairs"] == nCb, "not every callback pair ran")
 	r.Require(stats["fifo_records"] >= nFifo*40*9/10, "too few FIFO records")
@@ -497,5 +513,5 @@ func checkC07(r *vlib.Run) int {
 	total := stats["pairs"] + stats["audit_records"] + stats["fifo_batches"] + stats["audit_fifo_batches"]
 	r.Assumptions = []string{"both sides of every comparison are the real code; events are compared without uuid and clock reading",
 		"the rsyslog template frames records as '<pid> <msg>\\n' (contrib/rsyslog/config/rsyslog.d/journald.conf)"}
-	return r.Finish(total, dist.Len(), "every C06 form/field class once directly (pid,msg) and once as '<pid> <0-3 spaces><msg>\\n' through SyslogIngester.Process; 40-record streams through a real FIFO and SyslogIngester.Ingest under five write chunkings; every audit record kind parsed with and without trailing newline; audit histories through FIFO -> AuditLogIngester -> Auditd.Read versus fed directly; distinct = field-shape class x padding, record types, batch shapes")
+	return r.Finish(total, dist.Len(), "every C06 form/field class once directly (pid,msg) and once as '<pid> <0-3 spaces><msg>\\n' through SyslogIngester.Process; 40-record streams through a real FIFO and SyslogIngester.Ingest under five write chunkings; every audit record kind parsed with and without trailing newline; audit histories through FIFO -> AuditLogIngester -> Auditd.Read versus fed directly; accepted logins framed and direct while the login consumer is busy for 3 s (12 s thorough); distinct = field-shape class x padding, record types, batch shapes")
 }
